@@ -2,90 +2,223 @@
 (***************************************************************************)
 (* The scenario space of C18: (graph shape x options x edit) triples,      *)
 (* enumerated by TLC and built twice with the real api.Build.  Every       *)
-(* triple is instantiated as a pair of worlds of Hash.tla (the code as it  *)
-(* is: lih = FALSE) and the set of properties the model predicts to fail   *)
-(* is exported as `expect` (a candidate, guard 3: only the real builds     *)
-(* decide).                                                                 *)
+(* triple is instantiated as a pair of worlds of Hash.tla and exported     *)
+(* with                                                                    *)
+(*   expect : the properties the model predicts to fail (a candidate,      *)
+(*            guard 3: only the real builds decide), and                   *)
+(*   touch  : the hash ingredients of Hash.tla whose atoms the edit        *)
+(*            changes (restricted to the ingredients that are active under *)
+(*            the options).  |touch| = 1 marks a scenario that isolates    *)
+(*            one ingredient: the replay that reveals an implementation    *)
+(*            which leaves exactly that ingredient out (HashMC, DROPs).    *)
+(*                                                                         *)
+(* Dimensions: 12 graph shapes (static splitting, static chain of shared   *)
+(* chunks, dynamic-import chain, cycles of 2 and 3 chunks, file / copy /   *)
+(* dataurl assets, a copied file that is an entry point itself, CSS entry  *)
+(* with url(), CSS bundle of a JS entry);                                  *)
+(* options: source map mode (5) x sourcesContent x sourceRoot, legal       *)
+(* comment mode (5), public path, [hash] in the entry names, minify;       *)
+(* edits: 7 kinds of single-point edits of an input file (code, comment,   *)
+(* blank line, indentation, legal comment, local identifier, input source  *)
+(* map), asset bytes, added import, and 19 kinds of option-only edits.     *)
+(*                                                                         *)
+(* The space is cut into NSlices slices by a linear residue over all       *)
+(* dimension indices; a run enumerates the slices in Slices (the quick     *)
+(* tier a seeded few, the thorough tier more).                             *)
 (***************************************************************************)
 EXTENDS Integers, Sequences, FiniteSets, TLC, Json
 
 H == INSTANCE Hash
 
-\* chunk 1 = entry a, chunk 2 = entry b (or the dynamically imported b), chunk 3 = shared chunk
+CONSTANTS SMs, Legals, Minifies, MIH, NSlices, KInv, Slices, Salt
+
+\* chunk numbering: see ChunkOf
 Shape(s) ==
-  CASE s = "split"      -> [n |-> 3, imp |-> (1 :> {3} @@ 2 :> {3} @@ 3 :> {}), aref |-> (1 :> {} @@ 2 :> {} @@ 3 :> {})]
-    [] s = "splitasset" -> [n |-> 3, imp |-> (1 :> {3} @@ 2 :> {3} @@ 3 :> {}), aref |-> (1 :> {} @@ 2 :> {} @@ 3 :> {"x"})]
-    [] s = "dyncycle"   -> [n |-> 2, imp |-> (1 :> {2} @@ 2 :> {1}), aref |-> (1 :> {} @@ 2 :> {})]
-    [] s = "fileasset"  -> [n |-> 1, imp |-> (1 :> {}), aref |-> (1 :> {"x"})]
-    [] s = "cssurl"     -> [n |-> 1, imp |-> (1 :> {}), aref |-> (1 :> {"x"})]
-    [] s = "copy"       -> [n |-> 1, imp |-> (1 :> {}), aref |-> (1 :> {"x"})]
+  CASE s = "split"      -> [n |-> 3, imp |-> (1 :> {3} @@ 2 :> {3} @@ 3 :> {}), aref |-> (1 :> {} @@ 2 :> {} @@ 3 :> {}), css |-> {}, entries |-> {1, 2}]
+    [] s = "splitasset" -> [n |-> 3, imp |-> (1 :> {3} @@ 2 :> {3} @@ 3 :> {}), aref |-> (1 :> {} @@ 2 :> {} @@ 3 :> {"x"}), css |-> {}, entries |-> {1, 2}]
+    [] s = "statchain"  -> [n |-> 5, imp |-> (1 :> {4} @@ 2 :> {4} @@ 3 :> {5} @@ 4 :> {5} @@ 5 :> {}),
+                            aref |-> (1 :> {} @@ 2 :> {} @@ 3 :> {} @@ 4 :> {} @@ 5 :> {}), css |-> {}, entries |-> {1, 2, 3}]
+    [] s = "dyncycle"   -> [n |-> 2, imp |-> (1 :> {2} @@ 2 :> {1}), aref |-> (1 :> {} @@ 2 :> {}), css |-> {}, entries |-> {1}]
+    [] s = "dynchain"   -> [n |-> 3, imp |-> (1 :> {2} @@ 2 :> {3} @@ 3 :> {}), aref |-> (1 :> {} @@ 2 :> {} @@ 3 :> {}), css |-> {}, entries |-> {1}]
+    [] s = "cycle3"     -> [n |-> 3, imp |-> (1 :> {2} @@ 2 :> {3} @@ 3 :> {1}), aref |-> (1 :> {} @@ 2 :> {} @@ 3 :> {}), css |-> {}, entries |-> {1}]
+    [] s = "fileasset"  -> [n |-> 1, imp |-> (1 :> {}), aref |-> (1 :> {"x"}), css |-> {}, entries |-> {1}]
+    [] s = "copy"       -> [n |-> 1, imp |-> (1 :> {}), aref |-> (1 :> {"x"}), css |-> {}, entries |-> {1}]
+    [] s = "copyentry"  -> [n |-> 1, imp |-> (1 :> {}), aref |-> (1 :> {"x"}), css |-> {}, entries |-> {1}]
+    [] s = "dataurl"    -> [n |-> 1, imp |-> (1 :> {}), aref |-> (1 :> {}), css |-> {}, entries |-> {1}]
+    [] s = "cssurl"     -> [n |-> 1, imp |-> (1 :> {}), aref |-> (1 :> {"x"}), css |-> {1}, entries |-> {1}]
+    [] s = "jscss"      -> [n |-> 2, imp |-> (1 :> {} @@ 2 :> {}), aref |-> (1 :> {} @@ 2 :> {"x"}), css |-> {2}, entries |-> {1, 2}]
 
-Shapes == {"split", "splitasset", "dyncycle", "fileasset", "cssurl", "copy"}
-HasAsset(s) == s \in {"splitasset", "fileasset", "cssurl", "copy"}
+ShapeSeq == <<"split", "splitasset", "statchain", "dyncycle", "dynchain", "cycle3", "fileasset", "copy", "dataurl", "cssurl", "jscss", "copyentry">>
+TargetSeq == <<"a", "b", "c", "shared", "m2", "css">>
+InputEdits == <<"code", "comment", "blank", "indent", "legal", "ident", "inmap">>
+OtherEdits == <<"asset", "importadd">>
+OptionEdits == <<"pp", "ppon", "entrynames", "chunknames", "assetnames", "outext", "banner", "footer", "define", "minws", "minid", "minsyn",
+                 "target", "charset", "legalmode", "smmode", "sctoggle", "sroot", "keepnames">>
+EditSeq == InputEdits \o OtherEdits \o OptionEdits
+SMSeq == <<"none", "linked", "external", "inline", "both">>
+LegalSeq == <<"none", "inline", "eof", "linked", "external">>
+Range(q) == {q[k] : k \in 1..Len(q)}
+Idx(q, x) == CHOOSE k \in 1..Len(q) : q[k] = x
+
+HasAsset(s) == s \in {"splitasset", "fileasset", "cssurl", "copy", "jscss", "copyentry"}
 Targets(s) == CASE s \in {"split", "splitasset"} -> {"a", "shared"}
+                [] s = "statchain" -> {"a", "shared", "m2"}
                 [] s = "dyncycle" -> {"a", "b"}
+                [] s = "dynchain" -> {"a", "b", "c"}
+                [] s = "cycle3" -> {"a", "c"}
+                [] s = "jscss" -> {"a", "css"}
                 [] OTHER -> {"a"}
-ChunkOf(t) == CASE t = "a" -> 1 [] t = "b" -> 2 [] t = "shared" -> 3
+\* the chunk that contains the target module
+ChunkOf(sh, t) == CASE t = "a" -> 1 [] t = "b" -> 2
+                    [] t = "c" -> 3
+                    [] t = "shared" -> (IF sh = "statchain" THEN 4 ELSE 3)
+                    [] t = "m2" -> 5
+                    [] t = "css" -> 2
+IsCSSTarget(sh, t) == (sh = "cssurl") \/ (sh = "jscss" /\ t = "css")
 
-CONSTANTS SMs, Legals, Minifies
-
-Scenarios ==
-  [ shape : Shapes, target : {"a", "b", "shared"},
-    edit : {"code", "comment", "legal", "smaponly", "asset", "importadd", "pp", "names"},
-    pp : BOOLEAN, names : {"allhash", "entryplain"}, sm : SMs, legal : Legals, minify : Minifies ]
-
+\* scenario record: shape, target, edit, to (the new mode of a mode edit, "-" otherwise), and the options
 Sensible(s) ==
+  LET isInput == s.edit \in Range(InputEdits)
+      isOpt == s.edit \in Range(OptionEdits)
+  IN
   /\ s.target \in Targets(s.shape)
-  /\ (s.edit = "asset") => (HasAsset(s.shape) /\ s.target = "a")
-  /\ (s.edit = "importadd") => (s.shape \in {"split", "splitasset"} /\ s.target = "a")
-  /\ (s.edit = "pp") => (s.pp /\ s.target = "a")
-  /\ (s.edit = "names") => (s.target = "a")
-  /\ (s.shape = "cssurl") => (s.edit # "smaponly")   \* the CSS printer keeps no column-only differences apart
+  /\ (~isInput) => s.target = "a"
+  /\ (s.to # "-") <=> s.edit \in {"legalmode", "smmode"}
+  /\ (s.edit = "legalmode") => (s.to \in Legals /\ s.to # s.legal)
+  /\ (s.edit = "smmode") => (s.to \in SMs /\ s.to # s.sm)
+  /\ (s.sm = "none") => (~s.sc /\ ~s.sroot)                    \* no source map: the two source map options are irrelevant
+  /\ (isInput /\ IsCSSTarget(s.shape, s.target)) => s.edit \in {"code", "comment", "blank", "legal"}
+  /\ (s.edit = "asset") => (HasAsset(s.shape) \/ s.shape = "dataurl")
+  /\ (s.edit = "importadd") => s.shape \in {"split", "splitasset", "statchain"}
+  /\ (s.edit = "pp") => s.pp
+  /\ (s.edit = "ppon") => ~s.pp
+  /\ (s.edit = "chunknames") => Shape(s.shape).n > Cardinality(Shape(s.shape).entries)
+  /\ (s.edit = "assetnames") => (HasAsset(s.shape) /\ s.shape # "copyentry")   \* a copied entry point is named by the entry template
+  /\ (s.edit \in {"define", "keepnames", "minid"}) => s.shape # "cssurl"
+  /\ (s.edit \in {"sctoggle", "sroot"}) => s.sm # "none"
 
 World(s) ==
   LET sh == Shape(s.shape)
       C == 1..sh.n
   IN [ chunks |-> C, assets |-> {"x"}, names |-> <<>>, imp |-> sh.imp, aref |-> sh.aref,
-       hashedC |-> [c \in C |-> IF c = 1 \/ (c = 2 /\ s.shape # "dyncycle") THEN s.names = "allhash" ELSE TRUE],
-       hashedA |-> TRUE, pp |-> s.pp, sm |-> s.sm, legal |-> s.legal, lih |-> FALSE,
+       hashedC |-> [c \in C |-> IF c \in sh.entries THEN s.names = "allhash" ELSE TRUE],
+       hashedA |-> ((s.shape = "copyentry") => (s.names = "allhash")), pp |-> s.pp, sm |-> s.sm, legal |-> s.legal, lih |-> TRUE, mih |-> MIH, drop |-> {},
+       css |-> [c \in C |-> c \in sh.css],
        fake |-> [c \in C |-> c = 1],
        code |-> [c \in C |-> 0], parts |-> [c \in C |-> 0], tmpl |-> [c \in C |-> 0],
-       smap |-> [c \in C |-> 0], legalv |-> [c \in C |-> 1], ppv |-> 0, abytes |-> [a \in {"x"} |-> 0] ]
+       smP |-> [c \in C |-> 0], smM |-> [c \in C |-> 0], smS |-> [c \in C |-> 0],
+       legalv |-> [c \in C |-> 1], ppv |-> 0, atpl |-> 0, abytes |-> [a \in {"x"} |-> 0] ]
 
-\* the atoms a real edit touches
+RECURSIVE ForAll(_, _)
+\* one atom edit of kind k for every chunk of the sequence cs
+ForAll(k, cs) == IF cs = <<>> THEN <<>> ELSE <<[k |-> k, c |-> Head(cs)]>> \o ForAll(k, Tail(cs))
+
+\* the atoms a real edit touches (sc: sourcesContent is in the prefix of the
+\* map; minify: local names do not reach the code)
 Atoms(s) ==
-  LET c == ChunkOf(s.target)
-  IN CASE s.edit = "code"      -> <<[k |-> "code", c |-> c], [k |-> "smap", c |-> c]>>
-       [] s.edit = "comment"   -> <<[k |-> "smap", c |-> c]>>
-       [] s.edit = "smaponly"  -> <<[k |-> "smap", c |-> c]>>
-       [] s.edit = "legal"     -> <<[k |-> "legal", c |-> c], [k |-> "smap", c |-> c]>>
-       [] s.edit = "asset"     -> <<[k |-> "asset", a |-> "x"]>>
-       [] s.edit = "importadd" -> <<[k |-> "import", c |-> 1, d |-> 2], [k |-> "smap", c |-> 1]>>
+  LET sh == Shape(s.shape)
+      c == ChunkOf(s.shape, s.target)
+      all == H!SortedSeq(1..sh.n)
+      ent == H!SortedSeq(sh.entries)
+      nonent == H!SortedSeq((1..sh.n) \ sh.entries)
+      one(k) == <<[k |-> k, c |-> c]>>
+      P == IF s.sc THEN one("smP") ELSE <<>>
+  IN CASE s.edit = "code"      -> one("code") \o P
+       [] s.edit = "comment"   -> P
+       [] s.edit = "blank"     -> one("smM") \o P
+       [] s.edit = "indent"    -> one("smM") \o P
+       [] s.edit = "legal"     -> one("legal") \o P
+       [] s.edit = "ident"     -> (IF s.minify THEN <<>> ELSE one("code")) \o one("smS") \o P
+       [] s.edit = "inmap"     -> one("smP")
+       [] s.edit = "asset"     -> IF s.shape = "dataurl" THEN <<[k |-> "code", c |-> 1]>> ELSE <<[k |-> "asset", a |-> "x"]>>
+       [] s.edit = "importadd" -> <<[k |-> "import", c |-> 1, d |-> 2], [k |-> "smM", c |-> 1]>> \o (IF s.sc THEN <<[k |-> "smP", c |-> 1]>> ELSE <<>>)
        [] s.edit = "pp"        -> <<[k |-> "pp"]>>
-       [] s.edit = "names"     -> <<[k |-> "tmpl", c |-> 1]>>
+       [] s.edit = "ppon"      -> <<[k |-> "ppon"]>>
+       [] s.edit = "entrynames" -> ForAll("tmpl", ent) \o (IF s.shape = "copyentry" THEN <<[k |-> "atpl"]>> ELSE <<>>)
+       [] s.edit = "chunknames" -> ForAll("tmpl", nonent)
+       [] s.edit = "assetnames" -> <<[k |-> "atpl"]>>
+       [] s.edit = "outext"    -> ForAll("tmpl", all)
+       [] s.edit \in {"banner", "footer", "minws", "minsyn"} -> ForAll("code", all) \o ForAll("smM", all)
+       [] s.edit \in {"minid", "keepnames"} -> ForAll("code", all) \o ForAll("smS", all)
+       [] s.edit \in {"define", "target", "charset"} -> <<[k |-> "code", c |-> 1], [k |-> "smM", c |-> 1]>>
+       [] s.edit = "legalmode" -> <<[k |-> "legalmode", to |-> s.to]>>
+       [] s.edit = "smmode"    -> <<[k |-> "smmode", to |-> s.to]>>
+       [] s.edit \in {"sctoggle", "sroot"} -> ForAll("smP", all)
+
+\* the ingredient an atom edit belongs to, if that ingredient is hashed under the options of w
+IngredientOf(w, e) ==
+  CASE e.k \in {"code", "import"} -> {"pieces"} \cup (IF e.k = "import" THEN {"imports"} ELSE {})
+    [] e.k = "legal" -> IF w.legal \in {"inline", "eof"} THEN {"pieces"} ELSE IF w.legal \in {"linked", "external"} THEN {"legal"} ELSE {}
+    [] e.k \in {"smP", "smM", "smS"} -> IF w.sm # "none" THEN {e.k} ELSE {}
+    [] e.k = "tmpl" -> {"tmpl"}
+    [] e.k \in {"pp", "ppon"} -> {"pp"}
+    [] e.k \in {"asset", "atpl"} -> {"assetpath"}
+    [] e.k \in {"smmode", "legalmode"} -> {"modes"}
+    [] OTHER -> {}
+\* "imports": the edited chunk is imported by another chunk, whose name has to change as well
+HasImporter(w, c) == \E d \in w.chunks : d # c /\ c \in w.imp[d]
+Touch(s) == LET w == World(s) a == Atoms(s)
+            IN UNION {IngredientOf(w, a[k]) \cup (IF "c" \in DOMAIN a[k] /\ IngredientOf(w, a[k]) # {} /\ HasImporter(w, a[k].c) THEN {"imports"} ELSE {}) : k \in 1..Len(a)}
 
 Expect(s) == H!Failing(World(s), H!ApplySeq(World(s), Atoms(s)))
 
-\* the options are chosen in the initial state, (shape, target, edit) in one
-\* step, so that TLC's workers share the evaluation of Expect
-OptRecs == [pp : BOOLEAN, names : {"allhash", "entryplain"}, sm : SMs, legal : Legals, minify : Minifies]
-VARIABLES o, sc, w1, w2
-vars == <<o, sc, w1, w2>>
+\* the slice of a scenario: a linear residue over the indices of all
+\* dimensions
+B(b) == IF b THEN 1 ELSE 0
+OptRes(x) == Salt + 17 * Idx(SMSeq, x.sm) + 19 * Idx(LegalSeq, x.legal) + 23 * B(x.pp) + 29 * B(x.names = "allhash") + 31 * B(x.minify)
+             + 37 * B(x.sc) + 41 * B(x.sroot)
+TripleRes(tr) == 7 * tr[1] + 11 * tr[2] + 13 * tr[3]
+ToRes(ed, to) == IF to = "-" THEN 0 ELSE 43 * (IF ed = "smmode" THEN Idx(SMSeq, to) ELSE Idx(LegalSeq, to))
+SliceOf(s) == (OptRes(s) + TripleRes(<<Idx(ShapeSeq, s.shape), Idx(TargetSeq, s.target), Idx(EditSeq, s.edit)>>) + ToRes(s.edit, s.to)) % NSlices
+
+\* the targets of each shape as indices into TargetSeq (literal, so that the
+\* enumeration below is cheap); checked against Targets
+TargetIdxs == <<{1, 4}, {1, 4}, {1, 4, 5}, {1, 2}, {1, 2, 3}, {1, 3}, {1}, {1}, {1}, {1}, {1, 6}, {1}>>
+ASSUME \A i \in 1..Len(ShapeSeq) : {TargetSeq[j] : j \in TargetIdxs[i]} = Targets(ShapeSeq[i])
+NInput == Len(InputEdits)
+NEdits == Len(EditSeq)
+
+\* the options are chosen in the initial state, (shape, target, edit, to) in
+\* one step, so that TLC's workers share the evaluation of the prediction;
+\* the prediction is evaluated inside the action (where TLC caches) and kept
+\* in the state
+OptRecs == [pp : BOOLEAN, names : {"allhash", "entryplain"}, sm : SMs, sc : BOOLEAN, sroot : BOOLEAN, legal : Legals, minify : Minifies]
+ToSet(ed, x) == IF ed = "smmode" THEN SMs \ {x.sm} ELSE IF ed = "legalmode" THEN Legals \ {x.legal} ELSE {"-"}
+VARIABLES o, sc, ex
+vars == <<o, sc, ex>>
 NoScen == [shape |-> "none"]
-Init == o \in OptRecs /\ sc = NoScen /\ w1 = 0 /\ w2 = 0
+Init == o \in {x \in OptRecs : (x.sm = "none") => (~x.sc /\ ~x.sroot)} /\ sc = NoScen /\ ex = {}
+\* Enumerating a slice without scanning the whole space: 13 (the multiplier of
+\* the edit index) is invertible modulo NSlices, so for a shape, a target and a
+\* slice there is exactly one edit index with the right residue.
+ASSUME (13 * KInv) % NSlices = 1 /\ NEdits < NSlices
+PickK(base, s) == (KInv * ((s + NSlices - (base % NSlices)) % NSlices)) % NSlices
+ModeEdits == {"smmode", "legalmode"}
+ModeIdx == {Idx(EditSeq, "smmode"), Idx(EditSeq, "legalmode")}
+Plain(r) == UNION {UNION {{<<i, j, PickK(r + 7 * i + 11 * j, s), "-">> : s \in Slices} : j \in TargetIdxs[i]} : i \in 1..Len(ShapeSeq)}
+ValidPlain(q) == q[3] \in 1..(IF q[2] = 1 THEN NEdits ELSE NInput) /\ EditSeq[q[3]] \notin ModeEdits
+Modes(x, r) == UNION {UNION {{<<i, 1, k, to>> : to \in {t \in ToSet(EditSeq[k], x) : (r + 7 * i + 11 + 13 * k + ToRes(EditSeq[k], t)) % NSlices \in Slices}}
+                              : k \in ModeIdx} : i \in 1..Len(ShapeSeq)}
 Next == /\ sc = NoScen
-        /\ \E sh \in Shapes, t \in {"a", "b", "shared"}, ed \in {"code", "comment", "legal", "smaponly", "asset", "importadd", "pp", "names"} :
-              /\ sc' = [shape |-> sh, target |-> t, edit |-> ed] @@ o
-              /\ Sensible(sc')
-              /\ w1' = World(sc')
-              /\ w2' = H!ApplySeq(w1', Atoms(sc'))
+        /\ LET r == OptRes(o)
+           IN \E q \in {x \in Plain(r) : ValidPlain(x)} \cup Modes(o, r) :
+                /\ sc' = [shape |-> ShapeSeq[q[1]], target |-> TargetSeq[q[2]], edit |-> EditSeq[q[3]], to |-> q[4]] @@ o
+                /\ SliceOf(sc') \in Slices
+                /\ Sensible(sc')
+                /\ LET w1 == World(sc')
+                   IN ex' = [expect |-> H!Failing(w1, H!ApplySeq(w1, Atoms(sc'))), touch |-> Touch(sc')]
         /\ o' = o
 Spec == Init /\ [][Next]_vars
 
-Export == sc = NoScen \/ PrintT(<<"CASE", ToJson(sc @@ [expect |-> H!Failing(w1, w2)])>>)
+Export == sc = NoScen \/ PrintT(<<"CASE", ToJson(sc @@ ex)>>)
 
-\* sanity of the scenario space: the known candidate class is in it
-ASSUME LET s == [shape |-> "split", target |-> "shared", edit |-> "legal", pp |-> FALSE, names |-> "allhash",
-                 sm |-> "none", legal |-> "external", minify |-> FALSE]
-       IN Sensible(s) /\ "SamePathSameBytes" \in Expect(s)
+\* sanity of the scenario space: the class of the missed seed (a comment-only
+\* edit under inline source maps isolates the source map prefix) and the class
+\* of the mode finding are in it
+ASSUME LET s == [shape |-> "split", target |-> "shared", edit |-> "comment", to |-> "-", pp |-> FALSE, names |-> "allhash",
+                 sm |-> "inline", sc |-> TRUE, sroot |-> FALSE, legal |-> "inline", minify |-> FALSE]
+       IN Sensible(s) /\ Touch(s) = {"smP", "imports"}
+ASSUME LET s == [shape |-> "split", target |-> "a", edit |-> "smmode", to |-> "linked", pp |-> FALSE, names |-> "allhash",
+                 sm |-> "external", sc |-> TRUE, sroot |-> FALSE, legal |-> "inline", minify |-> FALSE]
+       IN Sensible(s) /\ Touch(s) = {"modes"} /\ (MIH \/ "SamePathSameBytes" \in Expect(s))
 =============================================================================
